@@ -17,6 +17,21 @@ def main():
     if here not in sys.path:
         sys.path.insert(0, here)
     job = json.load(sys.stdin)
+    fake = os.environ.get("VERIF_FAKE_HOST")
+    if fake:
+        import platform
+        import socket
+
+        socket.gethostname = lambda: fake
+        socket.getfqdn = lambda name="": fake
+        platform.node = lambda: fake
+        real_uname = os.uname
+
+        def uname():
+            u = real_uname()
+            return os.uname_result((u.sysname, fake, u.release, u.version, u.machine))
+
+        os.uname = uname
     from sim import c06_calls
     from sim.common import assert_repo_code
 
